@@ -246,6 +246,37 @@ class Exec(Engine):
                 q.pc.append(z3.And(0 <= r, r < sq.n, z3.Select(sq.arr, r) == v.t, s.forall(0, r, lambda k: z3.Select(sq.arr, k) != v.t)))
                 yield SInt(r), q
             return
+        if isinstance(o, SSet) and attr in ("update", "add"):
+            if attr == "add":
+                v = av[0]
+                if getattr(v, "kind", None) not in ("int", "obj"):
+                    raise OutOfSubset("set.add of a non int/obj value")
+                ek = v.kind
+                x = z3.Const("setx!", sort_of(ek))
+                other = z3.Lambda([x], x == v.t)
+            else:
+                v = av[0]
+                if isinstance(v, STup) and not v.items:
+                    yield SConc(None), p  # update with an empty literal: no change
+                    return
+                if isinstance(v, SSet):
+                    ek, other = v.ek, v.member
+                else:
+                    sq = s.as_seq(v, p, ek=o.ek)
+                    ek = sq.ek
+                    x = z3.Const("setx!", sort_of(ek))
+                    k = fresh("sk")
+                    other = z3.Lambda([x], z3.Exists([k], z3.And(0 <= k, k < sq.n, z3.Select(sq.arr, k) == x)))
+            if o.member is None:
+                new = SSet(other, ek)
+            else:
+                if o.ek != ek:
+                    raise OutOfSubset("set update with another element kind")
+                x = z3.Const("setx!", sort_of(ek))
+                new = SSet(z3.Lambda([x], z3.Or(z3.Select(o.member, x), z3.Select(other, x))), ek)
+            s.rebind(n, p, new)
+            yield SConc(None), p
+            return
         if isinstance(o, SMap) and attr == "get":
             k = av[0]
             if getattr(k, "kind", None) != o.kk:
@@ -606,7 +637,8 @@ class Exec(Engine):
     def bi_set(s, n, p):
         """set(seq) for homogeneous int/obj sequences: characteristic predicate (membership only; no cardinality)"""
         if not n.args:
-            raise OutOfSubset("set() without argument")
+            yield SSet(None, None), p  # empty set, element kind fixed by the first update
+            return
         for v, p1 in s.ev(n.args[0], p):
             if isinstance(v, SSet):
                 yield v, p1
